@@ -59,17 +59,7 @@ func (c *Calcium) doCreateWorkloads(ctx context.Context, opts *types.DeployOptio
 	)
 
 	_ = c.pool.Invoke(func() {
-		defer func() {
-			cctx, cancel := context.WithTimeout(utils.NewInheritCtx(ctx), c.config.GlobalTimeout)
-			for nodename := range deployMap {
-				processing := opts.GetProcessing(nodename)
-				if err := c.store.DeleteProcessing(cctx, processing); err != nil {
-					logger.Errorf(ctx, err, "delete processing failed for %s", nodename)
-				}
-			}
-			close(ch)
-			cancel()
-		}()
+		defer close(ch)
 
 		var resourceCommit wal.Commit
 		defer func() {
@@ -82,6 +72,17 @@ func (c *Calcium) doCreateWorkloads(ctx context.Context, opts *types.DeployOptio
 
 		var processingCommits map[string]wal.Commit
 		defer func() {
+			// delete the processing markers before their WAL entries are committed: once an entry is committed
+			// recovery no longer knows about the marker, so a crash (or a failed delete) in between would leak it
+			cctx, cancel := context.WithTimeout(utils.NewInheritCtx(ctx), c.config.GlobalTimeout)
+			defer cancel()
+			for nodename := range deployMap {
+				processing := opts.GetProcessing(nodename)
+				if err := c.store.DeleteProcessing(cctx, processing); err != nil {
+					logger.Errorf(ctx, err, "delete processing failed for %s", nodename)
+					delete(processingCommits, nodename) // keep the WAL entry, recovery will delete the marker
+				}
+			}
 			for nodename := range processingCommits {
 				if commit, ok := processingCommits[nodename]; ok {
 					if err := commit(); err != nil {
